@@ -11,7 +11,8 @@ RULE = ("A case is (protocol version, device id, token/key + form, wall-clock ep
         "instances, 1-6 ops from {set+apply, refresh, toggle_display, device-side change, two concurrent refreshes}, "
         "per-exchange network directives: latency, V3 byte-level cuts/coalescing, unsolicited state/B5/unknown frames "
         "before/after the response, immediate and late duplicates). Distinct = distinct plan; non-trivial = at least "
-        "one apply or refresh executed AND at least one network directive or second instance or device-side change.")
+        "one apply or refresh executed AND at least one network directive or second instance or device-side change."
+        " Later additions: a bystander device/client pair in 20 % of the plans, wall-clock steps (also backwards) between operations, learned capability profiles, bursts of 15-70 packets in the response's segment, IPv6 peers, units that close the connection right behind their answer, reports with unmodelled flag bits.")
 ASSUMPTIONS = [
     "SimTransport reproduces the asyncio.Transport contract (DESIGN 1.3)",
     "RefDevice decodes 0x40 / encodes 0xC0 by the vendor Lua layout with the choices of DESIGN 5.3",
